@@ -846,7 +846,12 @@ pub fn run_world(spec: &WorldSpec, ch: &mut Ch, verbose: bool) -> WorldResult {
                         }
                         if !corrupted && (is_ack || o.token.len() >= 2) {
                             stats.hit("c07.match.checked");
-                            if !same && !server.log[for_arrival].corrupted {
+                            // only between exchanges whose ids come from the
+                            // client's own fresh-id generator: scripted hostile /
+                            // noise / raw datagrams of the same endpoint pick
+                            // their ids independently and may coincide
+                            let fresh_ids = truth.kind == TagKind::Coop && o.tag.kind == TagKind::Coop;
+                            if !same && !server.log[for_arrival].corrupted && fresh_ids {
                                 violations.push(Violation::new(
                                     "C07",
                                     "match",
